@@ -1,8 +1,9 @@
 ---- MODULE MCEnums ----
 EXTENDS Enums
 \* enumeration: clusters at the minimum (-1000), zero and the maximum (1000)
-MCVals == {0-1001, 0-1000, 0-999, 0-2, 0-1, 0, 1, 999, 1000, 1001}
+\* 5000 / -5000: literals of 64-bit magnitude and beyond (the harness spells them so that a wrapped reading lands in range)
+MCVals == {0-5000, 0-1001, 0-1000, 0-999, 0-2, 0-1, 0, 1, 999, 1000, 1001, 5000, ODD}
 MCMin == 0-1000
 \* bits: the minimum is zero; 500 stands for 2^31-1 (the enumeration maximum, an inner point for bits)
-MCBitVals == {0-1, 0, 1, 499, 500, 999, 1000, 1001}
+MCBitVals == {0-5000, 0-1, 0, 1, 499, 500, 999, 1000, 1001, 5000, ODD}
 ====
